@@ -8,6 +8,9 @@ Convention (DESIGN 2.5, mirrored in Coq by Model/Pipe.v `Sym.app`, `Sym.body`, `
   lists / tuples / arrays as ``[v1,v2]`` (nested), a masked element as ``--``;
 * a function with several outputs ``(o1..ok)`` returns the tuple ``("out(o1;<app>)", ..., "out(ok;<app>)")``
   where ``<app>`` is the string above (``ok`` are the output names the SymFunc was built with);
+* a function may RETURN ``None`` (real Python None; its canonical string, and its value in the Coq models, is
+  ``None``): with ``none_prefix="nil"`` a single-output function whose NAME starts with ``nil`` returns None, and
+  the member of a tuple output whose OUTPUT NAME starts with ``nil`` is None (Coq: Model/SymNone.v ``SymN``);
 * every call appends one line -- exactly the ``<app>`` string -- to a call log.  The logger is pluggable:
   ``ListLog`` (in-process list) or ``FileLog`` (O_APPEND file, usable from worker processes).
 
@@ -124,9 +127,10 @@ class SymFunc:
                (-> returns a tuple of ``out(<name>;<app>)``)
     log      : object with ``append(line)``
     fail     : optional {app string or '*': exception instance/class} -- the call raises AFTER logging
+    none_prefix : optional str -- see the module docstring (functions / tuple members that are None)
     """
 
-    def __init__(self, name, params, outputs=None, log=None, sig_defaults=None, fail=None):
+    def __init__(self, name, params, outputs=None, log=None, sig_defaults=None, fail=None, none_prefix=None):
         self.__name__ = name
         self.__qualname__ = name
         self.__annotations__ = {}  # pipefunc's type validation reads it on callables that are not functions
@@ -135,6 +139,7 @@ class SymFunc:
         self.log = log
         self.sig_defaults = dict(sig_defaults or {})
         self.fail = dict(fail or {})
+        self.none_prefix = none_prefix
         self.__signature__ = inspect.Signature(
             [inspect.Parameter(p, inspect.Parameter.POSITIONAL_OR_KEYWORD,
                                default=self.sig_defaults.get(p, inspect.Parameter.empty))
@@ -149,9 +154,10 @@ class SymFunc:
         exc = self.fail.get(app, self.fail.get("*"))
         if exc is not None:
             raise exc() if isinstance(exc, type) else exc
+        npre = self.none_prefix
         if self.outputs is None:
-            return app
-        return tuple(f"out({o};{app})" for o in self.outputs)
+            return None if npre and self.__name__.startswith(npre) else app
+        return tuple(None if npre and o.startswith(npre) else f"out({o};{app})" for o in self.outputs)
 
     def __repr__(self):
         return f"SymFunc({self.__name__}{self.params})"
